@@ -1,8 +1,9 @@
 """C07 — feature-dependent operations are impossible before the feature is negotiated."""
 from .srv import SrvFamily
 from .fe import FeFamily
+from .c18_extra import ProxyGate   # C18 machinery: the proxy clause (theorem Props.C18.proxy_gate)
 
-PROPS_MODULES = ["C07", "Dispatch"]
+PROPS_MODULES = ["C07", "Dispatch", "C18"]
 RULE = ("family `srv` (gate mode): for every gated request, negotiation histories in which exactly its protocol-feature bit is "
         "missing / exactly it is present / none / all, with VHOST_USER_F_PROTOCOL_FEATURES acknowledged or not, NEED_REPLY on/off, "
         "plus random orders of GET/SET_FEATURES, GET/SET_PROTOCOL_FEATURES interleaved with gated requests; the real "
@@ -10,4 +11,5 @@ RULE = ("family `srv` (gate mode): for every gated request, negotiation historie
         "scenarios in which at least one handler call or one refusal of a gated request was observed. family `fe` (peer mode): the real "
         "Frontend with random negotiation prefixes and every gated API call; a refused call must leave the wire untouched.")
 ASSUMPTIONS = ["the handler script stands for any application handler", "little-endian host"]
-FAMILIES = [SrvFamily(modes=("gate",)), FeFamily(modes=("gate", "peer"), quick=(0, 2000, 0), thorough=(0, 40000, 0))]
+FAMILIES = [SrvFamily(modes=("gate",)), FeFamily(modes=("gate", "peer"), quick=(0, 2000, 0), thorough=(0, 40000, 0)),
+            ProxyGate()]
